@@ -7,7 +7,7 @@ NONTRIVIAL = {"flush-by-move", "flush-by-disable", "flush-by-print-end", "deferr
 RULE = ("all histories (breadth-first, to fix-point) over moves in/out of the region, a retracting move into it, "
         "codes of every configured mode with varying parameters (G4 exclude, M106 first, M117 last, M204/M205 "
         "merge incl. valueless and repeated parameters), an unconfigured M999, disable/enable, the afterPrintDone "
-        "hook, PrintCancelled and a new print -- with no / one-line / two-line enter and exit scripts configured "
+        "hook, PrintCancelled, a new print and a settings save that changes nothing -- with no / one-line / two-line enter and exit scripts configured "
         "through the real settings (so the script splitter is in the loop); every command emitted when an episode "
         "opens or closes must be explained by the reference accounting (deferred.py rules as list operations); "
         "non-trivial = first reached by a flush, by a deferral, or by an enter script emission")
@@ -18,7 +18,7 @@ MENU = [("TRAVEL", "I1"), ("TRAVEL", "O2"), ("TRAVEL", "I2"), ("WIPE", "I1"),
         ("RAW", "G4 P100"), ("RAW", "M106 S255"), ("RAW", "M106 S0"), ("RAW", "M117 a"), ("RAW", "M117 b"),
         ("RAW", "M204 S500"), ("RAW", "M204 T200"), ("RAW", "M204 S"), ("RAW", "M204 S0"), ("RAW", "M205 X5"), ("RAW", "M999"),
         ("AT", "ExcludeRegion", "disable"), ("AT", "ExcludeRegion", "enable"),
-        ("SCRIPT", "gcode", "afterPrintDone"), ("EV", "PRINT_CANCELLED"), ("NEWPRINT",)]
+        ("SCRIPT", "gcode", "afterPrintDone"), ("EV", "PRINT_CANCELLED"), ("NEWPRINT",), ("SET", "save", None)]
 
 
 def scenarios(tier):
